@@ -11,6 +11,9 @@ def scenarios(c):
     sizes = [0, 1, 15, 16, 17, BUF - 16, BUF - 1, BUF, BUF + 1, 2 * BUF, 2 * BUF + 5] + ([3 * BUF, 100000] if th else [])
     for sz in sizes:
         S.append({'kind': 'crypt', 'what': 'roundtrip', 'size': sz, 'pw': rng.choice(pws)}); c.distinct([('rt', sz)])
+    # input arriving through a pipe in bursts: a short read() is not the end of the stream
+    for sz, ce, cd in ((20000, [3000], [40, 5000]), (1500, [1, 700], [10, 77, 1516]), (1024, [1024], [56]), (9000, [1024, 2048, 8999], [72, 1096])):
+        S.append({'kind': 'crypt', 'what': 'roundtrip', 'size': sz, 'pw': rng.choice(pws), 'pipe_enc': ce, 'pipe_dec': cd}); c.distinct([('pipe', sz)])
     S.append({'kind': 'crypt', 'what': 'roundtrip', 'size': 100, 'keyfile': list(b'my key file password\nsecond line ignored\n')})
     S.append({'kind': 'crypt', 'what': 'roundtrip', 'size': 100, 'keyfile': list(b'no newline at end')})
     for sz in (0, 20, BUF):
